@@ -27,6 +27,7 @@ RULES = [
     ("C06.addprev", lambda c, r: __import__("sa.rules.lfht2", fromlist=["x"]).rule_addprev(c, r, "C06.addprev")),
     ("C06.addreplace", lambda c, r: __import__("sa.rules.lfht2", fromlist=["x"]).rule_addreplace(c, r, "C06.addreplace")),   # what add_replace returns: NULL iff own node inserted, the old node only after a successful replace, retry otherwise
     ("C06.rhinit", lambda c, r: __import__("sa.rules.lfht2", fromlist=["x"]).rule_rhinit(c, r, "C06.rhinit")),   # node->reverse_hash = bit_reverse_ulong(hash) before linking, in every entry point
+    ("C06.bits", lambda c, r: lfht.rule_bits(c, r, "C06.bits")),   # flags in node->next are sticky and set only by their owners: a cleared REMOVED re-opens a frozen next pointer to add / gc
     ("C06.gcskel", lambda c, r: __import__("sa.rules.lfht2", fromlist=["x"]).rule_gcskel(c, r, "C06.gcskel")),   # what gc links in place of a removed node: a leaked BUCKET bit hides the preceding node from lookups / add_unique
 ]
 FLOORS = {}
